@@ -35,7 +35,8 @@ RULE = ("multi-line programs (one sub-form per line, random blank lines and host
         "strategies, match, f-string fields, user macros: raiser in the argument and in the template); depth-1 "
         "host x raiser pairs enumerated in shuffled order (as far as the budget reaches), chains of 1-3 hosts "
         "sampled; at module level and inside a function; line endings LF, CRLF and mixed (with lone CRs inside "
-        "comments and a string literal; only LF ends a line). "
+        "comments and a string literal; only LF ends a line); one program in six starts with a shebang line read "
+        "with skip_shebang, as files are (it is line 1). "
         "Non-trivial = raiser under a function/class/comprehension/macro host or the compiled AST hoists a "
         "statement (a _hy_ temporary); distinct by program text.")
 FLOOR = {"quick": 500, "thorough": 5000}
@@ -680,7 +681,7 @@ def instantiate(h, nums):
 EOLS = ["lf", "crlf", "mixed"]
 
 
-def build_program(rng, chain, raiser, mode, noise, eol="lf"):
+def build_program(rng, chain, raiser, mode, noise, eol="lf", shebang=False):
     """chain: host names outermost first.  eol: how lines end - "lf", "crlf" or "mixed" (each line
     LF or CRLF at random; comments and a filler string then also hold lone CRs).  Only "\n" ends
     a line (hy's and CPython's rule), so the layout's line numbers do not depend on the variant.
@@ -744,7 +745,14 @@ def build_program(rng, chain, raiser, mode, noise, eol="lf"):
         text = "".join(ln + rng.choice(["\n", "\r\n"]) for ln in lay.lines)
     if len(lay.marks) != 1:
         raise AssertionError(f"expected one marked form, got {lay.marks} for chain {chain}")
-    return {"text": text, "span": lay.marks[0][:2], "span_cols": lay.marks[0][2:], "span_flat": span_flat, "exc": rexc, "token": token,
+    if shebang:
+        # a file may start with a shebang line, which the reader discards (skip_shebang, as the
+        # importer and `hy FILE` read): it is still line 1 of the file
+        sb = rng.choice(["#!/usr/bin/env hy", "#!/usr/bin/hy", "#!", "#! hy ; (not code"])
+        text = sb + ("\r\n" if eol == "crlf" else "\n") + text
+        m0 = lay.marks[0]
+        lay.marks[0] = [m0[0] + 1, m0[1] + 1] + list(m0[2:])
+    return {"text": text, "shebang": bool(shebang), "span": lay.marks[0][:2], "span_cols": lay.marks[0][2:], "span_flat": span_flat, "exc": rexc, "token": token,
             "raiser": rk, "chain": list(chain), "mode": mode, "template": in_template, "tags": tags, "eol": eol}
 
 
@@ -800,7 +808,8 @@ def cases(seed, tier, shard, nshards):
                 continue
             rng = rng_for(seed, ID, "enum", hi * 1000 + ri)
             mode = "module" if (hi + ri) % 2 else "fn"
-            yield build_program(rng, [names[hi]], RAISERS[ri], mode, noise=0.25, eol=EOLS[(hi + 2 * ri) % 3])
+            yield build_program(rng, [names[hi]], RAISERS[ri], mode, noise=0.25, eol=EOLS[(hi + 2 * ri) % 3],
+                                shebang=(hi + 3 * ri) % 6 == 0)
             continue
         rng = rng_for(seed, ID, shard, i)
         i += 1
@@ -811,7 +820,7 @@ def cases(seed, tier, shard, nshards):
             continue
         mode = rng.choice(["module", "fn"])
         yield build_program(rng, chain, raiser, mode, noise=rng.choice([0.0, 0.2, 0.4]),
-                            eol=rng.choice(["lf", "lf", "crlf", "mixed"]))
+                            eol=rng.choice(["lf", "lf", "crlf", "mixed"]), shebang=rng.random() < 0.15)
 
 
 # ---------------------------------------------------------------------------
@@ -885,7 +894,7 @@ def _hoisted(tree):
     return False
 
 
-def observe(text, fn):
+def observe(text, fn, shebang=False):
     """Compile + run.  -> dict(phase, exc, frames=[(lineno, funcname)] of module frames, hoisted)"""
     import hy  # noqa: F401
     from hy.compiler import hy_compile
@@ -898,7 +907,7 @@ def observe(text, fn):
     out = {"phase": None, "exc": None, "frames": [], "hoisted": False, "nframes": 0}
     try:
         try:
-            tree = hy_compile(read_many(text, filename=fn), m, filename=fn, source=text)
+            tree = hy_compile(read_many(text, filename=fn, skip_shebang=shebang), m, filename=fn, source=text)
             out["hoisted"] = _hoisted(tree)
             code = compile(tree, fn, "exec", optimize=0)    # keep `assert` whatever PYTHONOPTIMIZE says
         except BaseException as e:
@@ -939,7 +948,7 @@ def _run_case(case):
     text = case["text"]
     fn = "<hvc17-%d>" % next(_serial)
     classes = ["raiser:" + case["raiser"], "mode:" + case["mode"], "depth:%d" % len(case["chain"]),
-               "eol:" + case.get("eol", "lf")]
+               "eol:" + case.get("eol", "lf")] + (["shebang"] if case.get("shebang") else [])
     classes += ["host:" + h for h in case["chain"]] + ["tag:" + t for t in sorted(set(case["tags"]))]
     if case["template"]:
         classes.append("span:macro-call")
@@ -951,7 +960,7 @@ def _run_case(case):
     # program are the cross-check: a disagreement is recorded (C21's subject) but the source span
     # is what the statement is about.
     try:
-        forms = list(read_many(text, filename=fn))
+        forms = list(read_many(text, filename=fn, skip_shebang=bool(case.get("shebang"))))
         target = hy.read(case["span_flat"])
         lines = text.split("\n")
         s0, e0 = case["span"]
@@ -980,7 +989,7 @@ def _run_case(case):
     if span[1] > span[0]:
         classes.append("raiser-multiline")
 
-    ob = observe(text, fn)
+    ob = observe(text, fn, bool(case.get("shebang")))
     exc = ob["exc"]
     if ob["phase"] != "run":
         k = "skip:compile-error" if ob["phase"] == "compile" else "skip:no-exception"
@@ -1039,7 +1048,7 @@ def gate(tot, classes, extra, tier):
         return f"premise-failed-on-{skipped}-of-{seen + skipped}-programs"
     for need in ("tag:comp-native", "tag:comp-fn", "tag:macro-arg", "tag:macro-tmpl", "tag:fstr", "tag:match",
                  "tag:kwarg", "tag:class", "tag:fn", "tag:core", "raiser-multiline", "eol:lf", "eol:crlf",
-                 "eol:mixed"):
+                 "eol:mixed", "shebang"):
         if not classes.get(need):
             return f"no-{need}-case-observed"
     return None
